@@ -63,3 +63,31 @@ for _i, _a in enumerate(ARITY):
 def fsem(fid: int, args: list[int]) -> int:
     """Reference meaning over exact integers (used by oracles)."""
     return FNS[fid](*args)
+
+
+# ---- multi-output functions for MockSurrogate (FnLib.v: fsemN) ---------------------------
+
+
+def m_one(a):
+    return (a,)
+
+
+def m_pair(a, b):
+    return (a + b, a * b)
+
+
+def m_triple(a):
+    return (a, 2 * a, a * a)
+
+
+def m_pair2(a, b):
+    return (a - b, b)
+
+
+MULTI = [m_one, m_pair, m_triple, m_pair2]
+MULTI_ARITY = [1, 2, 1, 2]
+MULTI_OUT = [1, 2, 3, 2]
+
+
+def fsemN(fid: int, args: list[int]) -> list[int]:
+    return list(MULTI[fid](*args))
